@@ -9,7 +9,7 @@
 //     optional/default options (format independence + key case), family B plain names only
 //     (agreement with encoding/json).
 //   - documents: for every type, every combination of per-key values from the value alphabet
-//     (numbers -1 0 7 2^31 1.5 1.0, strings "x" "" "7", booleans, null, empty / non-empty arrays
+//     (numbers -1 0 7 2^31 1.5 1.0 1e3, strings "x" "" "7", booleans, null, empty / non-empty arrays
 //     and objects, right- and wrong-shaped composites), key missing, unknown extra keys; times the
 //     four spellings of the struct-field keys (declared, lower, UPPER, sWAPPED).
 //   - every document is rendered by the harness' own renderers (doc.go) to JSON, YAML (block and
@@ -267,12 +267,13 @@ func main() {
 		sizes[k] = map[string]int64{"types": v[0], "documents": v[1], "pairs": v[2]}
 	}
 	r.Scenario("family_sizes", sizes)
+	r.Scenario("family", describeFamily())
 	r.Scenario("value_alphabet_size", len(atoms())-1)
 	r.Scenario("env_cases", len(ecs))
 	r.Count("rendered_documents_validated_by_parse_back", int(nValidated))
 	r.Assume("renderers are validated, not trusted: every distinct rendered text is parsed back with encoding/json, gopkg.in/yaml.v2 and pelletier/go-toml/v2 and compared with the document tree")
-	r.Assume("documents containing null are not representable in TOML; for them only JSON and YAML are compared (classes of such differences carry toml=n/a)")
-	r.Assume("deeply equal = reflect.DeepEqual on the decoded struct values (nil and empty containers are different); class keys mark nil-vs-empty-only differences with ok~")
+	r.Assume("documents containing null are not representable in TOML and therefore outside the quantifier of the format-independence part: they are loaded (totality, panics counted under outside_quantifier.*) but not judged by the fmt / case oracles; the encoding/json part (JSON only) keeps them")
+	r.Assume("deeply equal = reflect.DeepEqual except that a nil and an empty slice / map are identified (in every oracle)")
 	r.SetRule("every (type, document, key spelling) triple of the bounded family is generated exactly once and loaded through every format it is representable in; " +
 		"a triple counts as non-trivial when at least one loader accepted it (so decoded values, not only verdicts, were compared); for the encoding/json part when both decoders accepted")
 	r.Finish()
@@ -346,6 +347,27 @@ func processType(r *vlib.Report, co *collector, idx int, it typeItem, variants [
 			seenText[text] = true
 			pairs++
 			key := fmt.Sprintf("%s|%d|%d", id, di, v)
+			if it.Fam == "A" && d.hasNull() {
+				// Outside the quantifier (null is not representable in TOML): the document is
+				// still loaded from JSON and YAML (totality: the loaders return, panics are
+				// counted) but neither the fmt nor the case oracle judges it.
+				o := loadAll(it.Spec, d, v)
+				counts["outside_quantifier.null_document_pairs_loaded_not_judged"]++
+				for _, x := range []outcome{o.J, o.YB, o.YF} {
+					switch x.Verdict {
+					case "panic":
+						counts["outside_quantifier.panics"]++
+					case "ok":
+						counts["outside_quantifier.loads_accepted"]++
+					case "err":
+						counts["outside_quantifier.loads_rejected"]++
+					}
+				}
+				if !same(o.J, o.YB) {
+					counts["outside_quantifier.json_yaml_differences_not_reported"]++
+				}
+				continue
+			}
 			if it.Fam == "A" {
 				o := loadAll(it.Spec, d, v)
 				res := judgeFmt(o)
@@ -355,9 +377,6 @@ func processType(r *vlib.Report, co *collector, idx int, it typeItem, variants [
 				if res.Accepted {
 					counts["fmt_pairs_accepted"]++
 					r.Nontrivial(key)
-				}
-				if !o.TOML {
-					counts["fmt_pairs_json_yaml_only"]++
 				}
 				if res.Sig != "" {
 					counts["fmt_failing_pairs"]++
